@@ -154,33 +154,38 @@ def plan(tier):
     return _plan_cache[tier]
 
 
+ROUNDS = {'quick': ['plain', 'rst'],
+          'thorough': ['plain', 'one-byte', 'segmented', 'rst']}
+
+
 def total(tier, seed):
     cases, _ = plan(tier)
-    return len(cases) * (1 if tier == 'quick' else 4)
+    return len(cases) * len(ROUNDS[tier])
 
 
 def scenario_for(seed, index, tier):
     cases, info = plan(tier)
-    rnd = index // len(cases)
+    rounds = ROUNDS[tier]
+    rnd = rounds[min(index // len(cases), len(rounds) - 1)]
     conv, k = cases[index % len(cases)]
     variant = None
-    if rnd == 1:
+    if rnd == 'one-byte':
         variant = {'one_byte_reads': True}
-    elif rnd == 3:
+    elif rnd == 'rst':
         variant = {'cut_mode': 'rst'}
-    elif rnd >= 2:
+    elif rnd == 'segmented':
         variant = {'segment': True, 'short_read': True}
     sc = make_scenario(conv, k, variant)
     sc['frames'] = info[conv['name']]['frames']
     sc['n'] = info[conv['name']]['n']
     sc['round'] = rnd
-    if rnd == 2:
+    if rnd == 'segmented':
         sc['sched']['granularity'] = 'line'
     return sc
 
 
 def policy(rng, scenario):
-    if scenario.get('round', 0) >= 2:
+    if scenario.get('round') in ('segmented', 'rst'):
         return Policy(p_sched=rng.choice([0, 0.02, 0.1]),
                       p_event=rng.choice([0, 0.05, 0.3]),
                       p_short=0.4, p_seg=0.4, name='seg')
